@@ -70,7 +70,9 @@ def _evidence(pid, res, stats, sel, t0, v, extra=None):
         cov.update(extra)
     vlib.write_evidence(pid, "model_checking", cov, time.time() - t0, len(v.violations),
                         ["programs are behaviours of Gen.tla (typing derivations over two fixed type families, bounded rule applications per declaration; sampled with -simulate for the seed)",
-                         "each mutation action's guard guarantees the edited program has no derivation; 'expected accept' programs are derivations, hence well-typed by construction"])
+                         "each mutation action's guard guarantees the edited program has no derivation; 'expected accept' programs are derivations, hence well-typed by construction",
+                         "Typing.tla (recursive checker over the node table of the PARSED program) is an independent oracle for every closed program of the corpora and for single-token mutants of them, "
+                         "within its fragment (no explicit polarity marks); wrongly accepted programs are attributed to C05 / C06 / C07 with the relaxed systems"])
 
 
 def _judge(pid, res, stats, sel, v):
@@ -99,7 +101,8 @@ def c05():
     res, stats = typing_campaign()
     sel = lambda p: p["mut"] is not None and p["mut"]["class"] == "C05"
     _judge("C05", res, stats, sel, v)
-    _evidence("C05", res, stats, sel, t0, v)
+    import typing_oracle
+    _evidence("C05", res, stats, sel, t0, v, typing_oracle.report(v, "C05", typing_oracle.stage()))
     return v.finish()
 
 
@@ -194,8 +197,11 @@ def c06():
     _judge("C06", res, stats, sel, v)
     with vlib.Work("indep") as work:
         ind = indep_campaign(v, work)
-    _evidence("C06", res, stats, sel, t0, v, {"independence_enumeration": ind,
-              "traces_validated_against_impl": ind["conforming"] + sum(1 for p in res if sel(p) and p["verdict"] == p["expect"])})
+    import typing_oracle
+    extra = {"independence_enumeration": ind,
+             "traces_validated_against_impl": ind["conforming"] + sum(1 for p in res if sel(p) and p["verdict"] == p["expect"])}
+    extra.update(typing_oracle.report(v, "C06", typing_oracle.stage()))
+    _evidence("C06", res, stats, sel, t0, v, extra)
     return v.finish()
 
 
@@ -205,7 +211,8 @@ def c07():
     res, stats = typing_campaign()
     sel = lambda p: p["mut"] is None or p["mut"]["class"] == "C07"
     _judge("C07", res, stats, sel, v)
-    _evidence("C07", res, stats, sel, t0, v)
+    import typing_oracle
+    _evidence("C07", res, stats, sel, t0, v, typing_oracle.report(v, "C07", typing_oracle.stage()))
     return v.finish()
 
 
